@@ -8,6 +8,7 @@ use gvharness::*;
 use std::collections::{BTreeMap, BTreeSet};
 
 const MATURITY: u64 = 3;
+const N_INVALID_KINDS: u64 = 19;
 
 #[derive(Clone, Default)]
 struct AState {
@@ -253,9 +254,13 @@ impl Gen {
 
 	/// Build an invalid variant on `parent`; returns id.
 	fn add_invalid(&mut self, rng: &mut Rng, parent: usize) -> Option<usize> {
+		let kind = rng.below(N_INVALID_KINDS);
+		self.add_invalid_kind(rng, parent, kind)
+	}
+
+	fn add_invalid_kind(&mut self, rng: &mut Rng, parent: usize, kind: u64) -> Option<usize> {
 		let h = self.kit.blks[parent].height + 1;
 		let diff = rng.range(1, 6);
-		let kind = rng.below(18);
 		let st = self.states[&parent].clone();
 		let spendable = self.spendable(parent, h);
 		let mut tags: Vec<String> = vec![];
@@ -462,6 +467,13 @@ impl Gen {
 				b.header.height += 1;
 				label = "height-wrong";
 			}
+			18 => {
+				// a plain output carrying a forged coinbase flag (the body stays sorted)
+				let idx = b.body.outputs.iter().position(|o| !o.is_coinbase())?;
+				b.body.outputs[idx].identifier.features = grin_core::core::OutputFeatures::Coinbase;
+				b.body.outputs.sort_unstable();
+				label = "forged-coinbase-flag-on-plain-output";
+			}
 			_ => {}
 		}
 		if label.is_empty() {
@@ -571,8 +583,19 @@ fn run_history(out: &mut Out, rng: &mut Rng, work: &str, hist: usize, big: bool)
 		}
 	}
 	// invalid variants on random valid parents
-	let ninv = if big { 24 } else { 14 };
+	let ninv = if big { 16 } else { 6 };
 	let parents = g.valid.clone();
+	// one attempt per kind first (on up to 3 candidate parents), then random extras
+	let mut kinds: Vec<u64> = (0..N_INVALID_KINDS).collect();
+	shuffle(rng, &mut kinds);
+	for k in kinds {
+		for _ in 0..3 {
+			let p = *rng.pick(&parents);
+			if g.add_invalid_kind(rng, p, k).is_some() {
+				break;
+			}
+		}
+	}
 	for _ in 0..ninv {
 		let p = if rng.chance(1, 5) { 0 } else { *rng.pick(&parents) };
 		g.add_invalid(rng, p);
